@@ -31,13 +31,19 @@ Inductive ep_rule :=
 | EpValNonneg                (* CurrentEpochStartHeight >= 0 — the current tree *)
 | EpValPositiveWhenStarted   (* … and > 0 once EpochCountingStarted ("the first block has height 1") *)
 | EpValUnknown.
+(** when Keeper.AddEpochInfo (the import path) REWRITES an epoch's start_time with the block time *)
+Inductive st_rule :=
+| EpStZeroOnly              (* only a zero start_time (a default definition) — the current tree *)
+| EpStZeroOrPastUnstarted   (* … or the epoch has not begun counting and its start_time is before the block time *)
+| EpStUnknown.
 Record cfg := {
   c_rid : rid_rule;
   c_tf_keeps_bank_md : bool;  (* unsafeGenesisInsertDenom keeps bank metadata that already exists *)
   c_pair_json_id : bool;      (* asset.Pair (Un)MarshalJSON copy the string unchanged *)
   c_dg_upd : dg_rule;         (* the withdrawer strings the x/devgas message handlers can store *)
   c_ep_val : ep_rule;         (* EpochInfo.Validate *)
-  c_ep_swallow : bool         (* x/epochs AppModule.InitGenesis discards the error of InitGenesis (`_ = InitGenesis(…)`) *)
+  c_ep_swallow : bool;        (* x/epochs AppModule.InitGenesis discards the error of InitGenesis (`_ = InitGenesis(…)`) *)
+  c_ep_start : st_rule        (* the condition under which AddEpochInfo rewrites StartTime *)
 }.
 
 (** pure functions of the Go code over opaque payloads *)
@@ -82,17 +88,23 @@ Definition epochs_st := smap epoch.            (* Map[string, EpochInfo], namesp
 Definition epochs_gen := list epoch.
 Definition zero_time : Z := (-62135596800000)%Z.   (* time.Time{} in Unix ms *)
 Definition export_epochs (s : epochs_st) : epochs_gen := map snd s.
-(** AddEpochInfo: rejects a known identifier, fills a zero start time, RE-BASES the start height *)
-Definition add_epoch (h t : Z) (acc : option epochs_st) (e : epoch) : option epochs_st :=
+(** AddEpochInfo: rejects a known identifier, fills the start time by rule [sr] (at block time [t]), RE-BASES the start height *)
+Definition start_rewritten (sr : st_rule) (t : Z) (e : epoch) : bool :=
+  match sr with
+  | EpStZeroOrPastUnstarted => Z.eqb (ep_start e) zero_time || (negb (ep_started e) && Z.ltb (ep_start e) t)
+  | _ => Z.eqb (ep_start e) zero_time
+  end.
+Definition add_epoch_r (sr : st_rule) (h t : Z) (acc : option epochs_st) (e : epoch) : option epochs_st :=
   match acc with
   | None => None
   | Some m =>
       if mem (ep_id e) m then None
       else Some (ins (ep_id e)
-                   {| ep_id := ep_id e; ep_start := if Z.eqb (ep_start e) zero_time then t else ep_start e;
+                   {| ep_id := ep_id e; ep_start := if start_rewritten sr t e then t else ep_start e;
                       ep_dur := ep_dur e; ep_cur := ep_cur e; ep_cstart := ep_cstart e;
                       ep_started := ep_started e; ep_height := h |} m)
   end.
+Definition add_epoch := add_epoch_r EpStZeroOnly.
 (** EpochInfo.Validate: identifier not empty, duration not 0, start height not negative (+ the rule's extra demand) *)
 Definition epoch_valid (r : ep_rule) (empty : key) (e : epoch) : bool :=
   negb (ep_id e =? empty) && negb (Z.eqb (ep_dur e) 0) && Z.leb 0 (ep_height e) &&
@@ -109,14 +121,16 @@ Definition epochs_gen_valid (r : ep_rule) (empty : key) (g : epochs_gen) : bool 
 (** epochs.InitGenesis at the InitChain context (height [h] = the genesis' initial height, 0 when it has none or 1;
     time [t]): Validate, then AddEpochInfo per epoch (its own Validate is the same check).  [None] = it returns an error
     (then nothing was inserted: Validate runs first and AddEpochInfo cannot fail after it). *)
-Definition init_epochs (r : ep_rule) (empty : key) (h t : Z) (g : epochs_gen) : option epochs_st :=
-  if epochs_gen_valid r empty g then fold_left (add_epoch h t) g (Some []) else None.
+Definition init_epochs_r (sr : st_rule) (r : ep_rule) (empty : key) (h t : Z) (g : epochs_gen) : option epochs_st :=
+  if epochs_gen_valid r empty g then fold_left (add_epoch_r sr h t) g (Some []) else None.
+Definition init_epochs := init_epochs_r EpStZeroOnly.
 (** … as the MODULE runs it: an error is discarded when [swallow] — the chain starts with NO epochs — else it aborts *)
-Definition init_epochs_mod (r : ep_rule) (swallow : bool) (empty : key) (h t : Z) (g : epochs_gen) : option epochs_st :=
-  match init_epochs r empty h t g with
+Definition init_epochs_mod_r (sr : st_rule) (r : ep_rule) (swallow : bool) (empty : key) (h t : Z) (g : epochs_gen) : option epochs_st :=
+  match init_epochs_r sr r empty h t g with
   | Some m => Some m
   | None => if swallow then Some [] else None
   end.
+Definition init_epochs_mod := init_epochs_mod_r EpStZeroOnly.
 
 (* ------------------------------------------------------------------ oracle *)
 Record rate := { r_rate : id; r_created : Z; r_ts : Z }.       (* ExchangeRateAtBlock *)
@@ -462,7 +476,7 @@ Definition export_app (env : list authacc) (s : app_st) : option app_gen :=
     (initialised earlier in the module order) hold. *)
 Definition init_app (c : cfg) (F : funs) (env : list authacc) (md0 : smap id) (h t : Z) (g : app_gen)
   : option app_st :=
-  match init_epochs_mod (c_ep_val c) (c_ep_swallow c) (f_empty F) h t (g_epochs g), init_tf c F md0 (g_tf g), init_devgas F (g_devgas g), init_evm F env (g_evm g) with
+  match init_epochs_mod_r (c_ep_start c) (c_ep_val c) (c_ep_swallow c) (f_empty F) h t (g_epochs g), init_tf c F md0 (g_tf g), init_devgas F (g_devgas g), init_evm F env (g_evm g) with
   | Some e, Some tf, Some dg, Some ev =>
       Some {| a_sudo := init_sudo (g_sudo g); a_infl := init_infl (g_infl g); a_epochs := e;
               a_oracle := init_oracle c h t (json_oracle_gen F (g_oracle g)); a_tf := tf; a_devgas := dg; a_evm := ev |}
